@@ -7,7 +7,8 @@ D2 off clears everything: on the `!stall_deselect` path every element gets `stal
    `silence_pulled := false` and `clear_stall_latch()`, and no `update_*` call is reachable on that path.
 D3 off means baseline: the selectors read, of all guard-private state, only `stall_gated`.
 """
-from ..ctx import CONN, sname
+from ..ctx import full_slice_element, CONN, sname
+from ..expr import show
 from ..pathcond import calls_to, field_stores
 
 LEVEL = "proof"
@@ -118,8 +119,12 @@ def d2_off_clears(ctx):
                 okd = all(cfg.dominates(blk, t) for t in backs)
                 ctx.chk.ob("D2", "every iteration passes the %s clear before the back edge" % nm, okd,
                            "back edges from %s" % backs, key="D2:off-each-iter:%s" % nm)
-            # the iterator is the full slice: iter_mut(conns) with conns the parameter
-            it = pa.fa.val_local(_iter_local(gate, head), (head, 0)) if _iter_local(gate, head) is not None else None
+            # the loop ranges over every link: a plain `for c in conns.iter_mut()` with no filtering adaptor
+            (gb, gsi, gs) = off_gated[0]
+            link = pa.fa.val_place({"l": gs["p"]["l"], "proj": gs["p"]["proj"][:-1]}, (gb, gsi))
+            sl = full_slice_element(link, ("param", 1))
+            ctx.chk.ob("D2", "the guard-off clearing loop visits every link (no filter / skip / take)", sl is not None,
+                       "element %s" % show(link, gate.names)[:200], key="D2:off-loop-full-slice")
     # clear_stall_latch itself zeroes both latch fields unconditionally
     clf = ctx.fn(CONN + "::clear_stall_latch", "D2")
     if clf:
